@@ -19,19 +19,19 @@ Proof.
   pose proof current_specs_ok as H. rewrite forallb_forall in H. apply H, all_pclass_complete.
 Qed.
 
-Lemma contained_now p k c acts : fst (server_handle k c server_spec (handle_spec p) acts) = Contained.
+Lemma contained_now p fails c acts : fst (server_handle fails c server_spec (handle_spec p) acts) = Contained.
 Proof. apply contained. exact current_server_ok. Qed.
 
-Lemma logged_now p k c acts o s :
-  server_handle k c server_spec (handle_spec p) acts = (o, s) ->
+Lemma logged_now p fails c acts o s :
+  server_handle fails c server_spec (handle_spec p) acts = (o, s) ->
   (forall e, In e (log s) -> e_after e = true -> e_cls e = LIO c /\ e_addr e = true) /\
-  (faulted k s = true -> exists e, In e (log s) /\ e_after e = true).
+  (faulted fails s = true -> exists e, In e (log s) /\ e_after e = true).
 Proof.
-  intros H. exact (proj2 (logged_own_class k c server_spec (handle_spec p) acts current_server_ok (spec_ok_at p) o s H)).
+  intros H. exact (proj2 (logged_own_class fails c server_spec (handle_spec p) acts current_server_ok (spec_ok_at p) o s H)).
 Qed.
 
-Lemma files_closed_now p k c acts : balanced acts ->
-  depth (snd (server_handle k c server_spec (handle_spec p) acts)) = 0.
+Lemma files_closed_now p fails c acts : balanced acts ->
+  depth (snd (server_handle fails c server_spec (handle_spec p) acts)) = 0.
 Proof. apply files_closed. Qed.
 
 (* the open( call sites that are not the context expression of a with statement
